@@ -258,7 +258,9 @@ def rekey(sid, key):
     if kind == "year2":
         return key if 1965 <= s.year <= 2064 and 1965 <= e.year <= 2064 else None
     if kind == "sameday":
-        return key if s.date() == e.date() and s <= e else None
+        # end given as time of day only: representable while the period is shorter than a day (the end may lie on the next
+        # day - also across a month / year end -, then its time of day is earlier than the start's)
+        return key if s <= e and e - s < dt.timedelta(days=1) else None
     if kind == "start":
         return (s, s, sat)
     d0 = dt.datetime(s.year, s.month, s.day)
@@ -414,6 +416,13 @@ def history_case(ck, scratch, nops, use_model=True, pool="thread"):
             s = dt.datetime(y, 12, rng.choice([30, 31, 31]), rng.choice([0, 11, 22, 23]), rng.choice([0, 30]))
             e = s + dt.timedelta(days=rng.choice([0, 1, 1, 2, 3]), hours=rng.choice([0, 1, 5]), minutes=rng.choice([0, 7]), seconds=rng.choice([0, 5]))
             return (s, e, sat)
+        if kind == "sameday" and rng.random() < 0.35:
+            # a period crossing midnight, preferably at a month / year end (leap and non-leap Februaries)
+            y = rng.choice([2015, 2016, 2019, 2020])
+            mo, d = rng.choice([(12, 31), (12, 31), (1, 31), (2, 28), (2, 29) if y % 4 == 0 else (2, 28), (4, 30), (6, 15)])
+            s = dt.datetime(y, mo, d, rng.choice([21, 22, 23]), rng.choice([0, 30, 59]))
+            e = s + dt.timedelta(hours=rng.choice([1, 2, 3]), minutes=rng.choice([0, 7]), seconds=rng.choice([0, 5]))
+            return (s, e, sat)
         s = rng.choice(slots) + dt.timedelta(minutes=rng.choice([0, 10, 30]))
         e = s + dt.timedelta(minutes=rng.choice([0, 5, 20, 59]), seconds=rng.choice([0, 0, 59]))
         return rekey(sid, (s, e, sat))
@@ -534,6 +543,45 @@ def history_case(ck, scratch, nops, use_model=True, pool="thread"):
                 ops.append(["find", sid, us(qs), us(qe), via])
                 lines.append(f"find {sid} {us(qs)} {us(qe)}")
                 checks.append((len(lines) - 1, " ".join(f"{hx(p)}:{a}_{b}_{s}" for p, a, b, s in sorted(got)) or "-", "find"))
+                # reading back THROUGH the index syntax: fs[a:b], fs[a:], fs[:b] collect every file whose period intersects,
+                # fs[t] reads the file covering t
+                hit = [k for k in oracle[sid] if overlaps(k, qs, qe)]
+                if rng.random() < 0.6 and all(decode_expect(sid, oracle[sid][k], None, via) is not None for k in oracle[sid]):
+                    form = rng.choice(["both", "both", "open-end", "open-start", "point"])
+                    want_k = hit if form == "both" else [k for k in oracle[sid] if k[1] >= qs] if form == "open-end" else \
+                        [k for k in oracle[sid] if k[0] <= qe] if form == "open-start" else []
+                    try:
+                        if form == "both":
+                            got_s = fs[qs:qe]
+                            want_k = hit
+                        elif form == "open-end":
+                            got_s = fs[qs:]
+                            want_k = [k for k in oracle[sid] if k[1] >= qs]
+                        elif form == "open-start":
+                            got_s = fs[:qe]
+                            want_k = [k for k in oracle[sid] if k[0] <= qe]
+                        else:
+                            cands = [k for k in oracle[sid] if sum(1 for j in oracle[sid] if j[0] <= k[0] <= j[1]) == 1]
+                            if not cands:
+                                raise LookupError
+                            k0 = rng.choice(cands)
+                            got_s = [fs[k0[0]]]
+                            want_k = [k0]
+                        got_t = sorted(token(x) for x in (got_s or []))
+                        want_t = sorted(decode_expect(sid, oracle[sid][k], None, via) for k in want_k)
+                        ck.count("slice/" + form)
+                        if got_t != want_t:
+                            ck.violation(sig("slice-read", sid, via), f"{sid}[{form}: {qs} .. {qe}] returned {len(got_t)} data sets {got_t[:2]}, "
+                                                                      f"expected the {len(want_t)} stored in that period {want_t[:2]}", case)
+                    except LookupError:
+                        pass
+                    except Exception as e:      # noqa
+                        if type(e).__name__ == "NoFilesError" and not want_k:
+                            ck.count("slice/empty-period-NoFilesError")          # nothing stored there: the documented answer
+                        else:
+                            ck.violation("slice-read", f"{sid}[{form}: {qs} .. {qe}] raised {type(e).__name__}: {str(e)[:120]} "
+                                                       f"({len(want_k)} stored data sets intersect)", case)
+                            return
                 for i in found:
                     rel = os.path.relpath(i.path, root)
                     key = next((k for k in oracle[sid] if own_name(sid, k) == rel), None)
